@@ -14,6 +14,27 @@ func genC03(t *rapid.T) *Scenario {
 	set.Cluster = rapid.IntRange(0, 5).Draw(t, "cluster") == 0
 	sc.Steps = append(sc.Steps, Step{Op: "createSet", Set: &set})
 	n := rapid.IntRange(4, 30).Draw(t, "nsteps")
+	// a second revision of the same set (other content variants) makes passes that change existing objects
+	if rapid.IntRange(0, 2).Draw(t, "second") == 0 {
+		s2 := set
+		s2.Phases = nil
+		for _, ph := range set.Phases {
+			p2 := ph
+			p2.Objs = nil
+			for _, o := range ph.Objs {
+				o.Variant = o.Variant + 1
+				p2.Objs = append(p2.Objs, o)
+			}
+			s2.Phases = append(s2.Phases, p2)
+		}
+		s2.Previous = []int{0}
+		defer func() {
+			at := rapid.IntRange(1, len(sc.Steps)).Draw(t, "secondat")
+			steps := append([]Step{}, sc.Steps[:at]...)
+			steps = append(steps, Step{Op: "createSet", Set: &s2})
+			sc.Steps = append(steps, sc.Steps[at:]...)
+		}()
+	}
 	ctrls := []string{engine.CtrlObjectSet, engine.CtrlObjectSet, engine.CtrlObjectSetPhase}
 	if set.Cluster {
 		ctrls = []string{engine.CtrlClusterObjectSet, engine.CtrlClusterObjectSet, engine.CtrlClusterObjectSetPhase}
@@ -27,7 +48,11 @@ func genC03(t *rapid.T) *Scenario {
 		case 7:
 			sc.Steps = append(sc.Steps, Step{Op: "tpReady", I: rapid.IntRange(0, 3).Draw(t, "cm"), On: rapid.Bool().Draw(t, "on")})
 		case 8:
-			sc.Steps = append(sc.Steps, Step{Op: "tpDelete", I: rapid.IntRange(0, 6).Draw(t, "obj")})
+			if rapid.Bool().Draw(t, "editordelete") {
+				sc.Steps = append(sc.Steps, Step{Op: "tpEdit", I: rapid.IntRange(0, 6).Draw(t, "obj")})
+			} else {
+				sc.Steps = append(sc.Steps, Step{Op: "tpDelete", I: rapid.IntRange(0, 6).Draw(t, "obj")})
+			}
 		case 9:
 			sc.Steps = append(sc.Steps, Step{Op: "quiesce"})
 		}
